@@ -174,15 +174,16 @@ def critical_positions(c, wd, pid, seed):
     and the critical positions the model prints are realised as real zlib streams (spec -> impl)."""
     consts = {"Thresh": 65032, "Delta": 32256, "MaxPos": 140000, "Lens": "{1, 3, 257, 258}", "Emit": "TRUE"}
     crit = os.path.join(wd, "critical.json")
-    r = mc("Positions", wd, constants=consts, invariants=["NoOverflow", "WindowKept", "Replay"], workers=8, timeout=1800,
+    r = mc("MC_Positions", wd, constants=consts, invariants=["NoOverflow", "WindowKept", "Replay"], workers=8, timeout=1800,
            replay_out=crit)
     c.add_model(r, "relative positions of the hash tables over every sequence of token lengths 1, 3, 257, 258 up to "
                    "position 140000: every conversion to 16 bits in range, nothing inside the window dropped")
     cfg = os.path.join(wd, "positions_neg.cfg")
     write_cfg(cfg, constants=dict(consts, Thresh=65278, Emit="FALSE"), invariants=["NoOverflow"])
-    if tlc("Positions", cfg, os.path.join(wd, "positions_neg"), coverage=False, timeout=1800)["ok"]:
+    if tlc("MC_Positions", cfg, os.path.join(wd, "positions_neg"), coverage=False, timeout=1800)["ok"]:
         raise ToolError("Positions.tla does not find the overflow under the late reshift threshold (negative configuration)")
     c.note("negative model (reshift threshold 0x10000 - 258) violates NoOverflow as expected")
+    apalache_inductive(c, "Positions", wd, "ConstInit", "Init", "IndInit", "IndInv", "NoOverflow", neg_cinit="ConstInitLate")
     res = os.path.join(wd, "critical.res")
     vh(["deflate-critical", "--in", crit, "--out", res, "--seed", seed], timeout=3600)
     rs = list(read_ndjson(res))
